@@ -159,7 +159,9 @@ func runC14(c *Ctx) {
 	if c.thorough {
 		n = 4000
 	}
-	strs := []string{"", "a", "é", "日本語", "a😀b", "éé", "héllo", "ǆİß"}
+	// (title-case digraphs, Greek with iota adscript, Roman numerals, circled letters: characters that are neither
+	// "upper-case letters" nor "lower-case letters" in Unicode's categories but have case mappings; combining marks)
+	strs := []string{"", "a", "é", "日本語", "a😀b", "éé", "héllo", "ǆİß", "ǅ", "ǈǋǲ", "ᾈᾘᾨ", "Ⅳⅷ", "ⒶⒷⓐ", "ῼ", "xǅy", "ño", "à́b", "́"}
 	for i := 0; i < n; i++ {
 		strs = append(strs, randStr(c.rng, 12))
 	}
@@ -250,6 +252,9 @@ func runC14(c *Ctx) {
 			orp := eval("%s.replace(%a0, %a1)", r, pv, system.String(rep))
 			c.Emit("srepl "+hs+" "+hp+" "+hexs(rep), outTokens(orp), nt)
 			checkUTF8(orp, "replace")
+			if !orp.Panicked && orp.Err == nil {
+				c.Law(len(orp.Coll) == 1 && orp.Coll[0] == system.String(strings.ReplaceAll(s, p, rep)), "C14/replace-oracle", "replace(p, r) substitutes every non-overlapping occurrence of p from the left (an empty p matches before every character and at the end)", fmt.Sprintf("%q.replace(%q, %q)", s, p, rep), outTokens(orp))
+			}
 			// laws
 			if oi.Err == nil && len(oi.Coll) == 1 && oc.Err == nil && len(oc.Coll) == 1 {
 				idx := int32(oi.Coll[0].(system.Integer))
